@@ -118,6 +118,7 @@ pub fn run(pid: &str, tier: &str, seed: u64, corpus: &str) -> bool {
     match pid {
         "C07" => crate::f_policy::c07(&mut ctx, tier, &mut r, &js, &reqs, replay_only),
         "C08" => crate::f_policy::c08(&mut ctx, tier, &mut r, &js, &reqs, replay_only),
+        "C09" => crate::f_goodday::c09(&mut ctx, tier, &mut r, &js, &reqs, replay_only),
         "C11" => crate::f_policy::c11(&mut ctx, tier, &mut r, &js, &reqs, replay_only),
         "C14" => crate::f_range::c14(&mut ctx, tier, &mut r, &js, &reqs, replay_only),
         "C17" => crate::f_hijri::c17(&mut ctx, tier, &mut r, &js, &reqs, replay_only),
